@@ -80,7 +80,18 @@ def ensure_import(filename, imports, recorder: ChangeRecorder):
     assert isinstance(tree, ast.Module)
 
     last_import = None
-    for node in tree.body:
+    body = tree.body
+    if (
+        body
+        and isinstance(body[0], ast.Expr)
+        and isinstance(body[0].value, ast.Constant)
+        and isinstance(body[0].value.value, str)
+    ):
+        # the new import is added behind the module docstring
+        last_import = body[0]
+        body = body[1:]
+
+    for node in body:
         if not isinstance(node, (ast.ImportFrom, ast.Import)):
             break
         last_import = node
